@@ -1,21 +1,31 @@
 import Babylon.Core.Trace
 import Babylon.IdAlloc.Model
+import Babylon.IdAlloc.Box
 /-! Lock-step replay driver for property C14 (IdAllocator / DepositBox).
-stdin: runs `RUN <seed> W=<bits> …` / VRT trace lines / `END`; stdout: `ok <n>` | `diverge <why>`. -/
+stdin: runs `RUN <seed> W=<bits> mode=<mode> …` / VRT trace lines / `END`; stdout: `ok <n>` | `diverge <why>`.
+`mode=box` replays against the deposit-box model (`Babylon.IdAlloc.bstep`, Box.lean), every other mode
+against the allocator model (`Babylon.IdAlloc.stepThread`, Model.lean). -/
 open Babylon.Core Babylon.IdAlloc
 
-structure RState where
+/-- replay state of the allocator modes -/
+structure AState where
   c : Cfg
   s : State
 
+/-- replay state: allocator model or deposit-box model, selected by the RUN header -/
+inductive RState
+  | alloc (a : AState)
+  | box (c : Cfg) (b : BState)
+
 def initR (hdr : List String) : RState :=
   let w := (hdr.filterMap (fun h => if h.startsWith "W=" then (h.drop 2).toNat? else none)).head?.getD 32
-  { c := { W := w }, s := State.init { W := w } }
+  if hdr.contains "mode=box" then .box { W := w } (BState.init { W := w })
+  else .alloc { c := { W := w }, s := State.init { W := w } }
 
 def showPc : Pc → String
   | p => reprStr p
 
-def stepObs (r : RState) (o : Obs) : Except String RState :=
+def stepAllocObs (r : AState) (o : Obs) : Except String AState :=
   let t := o.tid
   match Act.ofObs o with
   | none => .error "unknown trace line"
@@ -56,8 +66,83 @@ def stepObs (r : RState) (o : Obs) : Except String RState :=
       if l = a then .ok { r with s := s' }
       else .error s!"model expects {reprStr l}, implementation did {reprStr a}"
 
-def finalR (r : RState) : Except String Unit :=
-  if r.s.dup then .error "model reached a state where an id has two owners" else .ok ()
+def showBPc : BPc → String
+  | p => reprStr p
+
+/-- one trace line of a `mode=box` run against `bstep` / `callEmplace` / `callTake` / `callFinish` -/
+def stepBoxObs (c : Cfg) (b : BState) (o : Obs) : Except String BState :=
+  let t := o.tid
+  match Act.ofObs o with
+  | none => .error "unknown trace line"
+  | some (.ev ["call", "emplace", x]) =>
+    match x.toNat? with
+    | none => .error "bad value"
+    | some x =>
+      if b.bpc t = .idle then .ok (callEmplace b t x)
+      else .error s!"call while not idle (pc {showBPc (b.bpc t)})"
+  | some (.ev ["ret", "emplace", v, r]) =>
+    match v.toNat?, r.toNat?, b.bpc t with
+    | some v, some r, .emCons v' r' _ =>
+      if v' = v ∧ r' = r then
+        -- the construction of the object (plain writes) is the model step that ends `emplace`
+        match bstep c b t false with
+        | some (b', .ev ["constructed"]) =>
+          if b'.bpc t = .idle ∧ b'.eres t = some (v, r) then .ok b'
+          else .error s!"emplace returned {v}@{r}, model says {reprStr (b'.eres t)}"
+        | _ => .error "model has no construction step at emCons"
+      else .error s!"emplace returned {v}@{r} but the model thread is at {showBPc (b.bpc t)}"
+    | none, _, _ | _, none, _ => .error "bad value"
+    | _, _, p => .error s!"implementation returned from emplace but the model thread is at {showBPc p}"
+  | some (.ev ["call", "take", v, r]) =>
+    match v.toNat?, r.toNat? with
+    | some v, some r =>
+      if b.bpc t ≠ .idle then .error s!"call while not idle (pc {showBPc (b.bpc t)})"
+      else if b.issued.any (fun i => i.1 == v && i.2.1 == r) then .ok (callTake b t v r)
+      else .error s!"client contract: take of id {v}@{r}, which no emplace has returned in the model"
+    | _, _ => .error "bad value"
+  | some (.ev ["ret", "take", "1", x]) =>
+    match x.toNat? with
+    | none => .error "bad value"
+    | some x =>
+      if b.bpc t ≠ .idle then .error s!"implementation returned from take but the model thread is at {showBPc (b.bpc t)}"
+      else if b.tres t = some (some x) then .ok b
+      else .error s!"take returned item {x}, model says {reprStr (b.tres t)}"
+  | some (.ev ["ret", "take", "0"]) =>
+    if b.bpc t ≠ .idle then .error s!"implementation returned from take but the model thread is at {showBPc (b.bpc t)}"
+    else if b.tres t = some none then .ok b
+    else .error s!"take returned nothing, model says {reprStr (b.tres t)}"
+  | some (.ev ["call", "finish", v]) =>
+    match v.toNat? with
+    | none => .error "bad value"
+    | some v =>
+      if b.bpc t ≠ .idle then .error s!"call while not idle (pc {showBPc (b.bpc t)})"
+      else match b.ph v with
+        | .held t' _ =>
+          if t' = t then .ok (callFinish b t v)
+          else .error s!"client contract: thread {t} finishes slot {v}, which is held by thread {t'} in the model"
+        | p => .error s!"client contract: thread {t} finishes slot {v}, whose model phase is {reprStr p}"
+  | some (.ev ["ret", "finish"]) =>
+    if b.bpc t = .idle then .ok b
+    else .error s!"implementation returned from finish but the model thread is at {showBPc (b.bpc t)}"
+  | some (.ev _) => .ok b            -- other harness events (oracle verdicts, stats)
+  | some (.spawn _) | some (.join _) | some .exit => .ok b
+  | some a =>
+    let spurious := match a with
+      | .cas _ _ true _ _ e _ ok obs => !ok && e == obs
+      | _ => false
+    match bstep c b t spurious with
+    | none => .error s!"implementation performs {reprStr a} but the model thread has no action (pc {showBPc (b.bpc t)})"
+    | some (b', l) =>
+      if l = a then .ok b'
+      else .error s!"model expects {reprStr l}, implementation did {reprStr a}"
+
+def stepObs : RState → Obs → Except String RState
+  | .alloc a, o => RState.alloc <$> stepAllocObs a o
+  | .box c b, o => RState.box c <$> stepBoxObs c b o
+
+def finalR : RState → Except String Unit
+  | .alloc r => if r.s.dup then .error "model reached a state where an id has two owners" else .ok ()
+  | .box _ b => if b.al.dup then .error "model reached a state where a slot id has two owners" else .ok ()
 
 def main : IO Unit := do
   replayLoop (← IO.getStdin) initR stepObs finalR
